@@ -280,7 +280,9 @@ def gen_driver(facts, cfg, include_source=True):
             w(f'    verif::emit("C02", "sts-is-component-port", "{p.name}", &{pc.user} == &{pc.comp}, "");')
         elif not pc.mc:
             w(f'    verif::emit("C02", "mts-is-own-port", "{p.name}", &{pc.user} != &{pc.comp}, "");')
-    for pc, ev in events:
+    # every event is fired twice: in declaration order and then again in reverse order (one-shot state,
+    # order dependence)
+    for pc, ev in events + list(reversed(events)):
         fname = f'fire_{pc.p.name}_{ev.direction}_{ev.name}'
         if pc.mc:
             if ev.direction == 'in':
